@@ -189,6 +189,74 @@ func c07(r *core.Report) {
 		}
 		r.Check(ok, "C07-ARM", core.FnName(fn), p.Pos(fn.Pos()), "the proposed session is returned only after it was installed as the prospective session", "proposeNewSession can return the new session without installing it: its handshake reply is sent but later messages find no session")
 	}
+	// (e0) a repeated InitHello is recognised against EVERY session slot before a new
+	// responder session is created: otherwise a late duplicate of the hello of an
+	// established (or previous) session parks an uncompletable session in the
+	// prospective slot, which blocks rekeying and re-initiation.
+	{
+		calls := core.CallsToFn(lit, c.newResp)
+		okRep := false
+		why := "no loop over all session slots compares the hello's id before newResp"
+		idF := p.Field("p/p2pke", "sessionEntry", "ID")
+		for _, b := range lit.Blocks {
+			iff, isIf := b.Instrs[len(b.Instrs)-1].(*ssa.If)
+			if !isIf || len(calls) != 1 || idF == nil {
+				continue
+			}
+			bo, isB := iff.Cond.(*ssa.BinOp)
+			if !isB || bo.Op != token.EQL {
+				continue
+			}
+			fx, bx := core.FieldRead(bo.X)
+			if !core.SameField(fx, idF) {
+				continue
+			}
+			// the compared entry is the element of a range over the whole sessions array
+			fromRange := core.DerivesFromDirect(bx, func(x ssa.Value) bool {
+				ix, ok := x.(*ssa.Index)
+				if !ok || !isRangeIndex(ix.Index) {
+					return false
+				}
+				f, _ := core.FieldRead(ix.X)
+				return core.SameField(f, c.sessions)
+			})
+			if !fromRange {
+				why = "the repeated-hello test does not range over all session slots"
+				continue
+			}
+			// the other operand is the hash of the incoming message
+			if _, _, isCall := core.CallResult(bo.Y); !isCall {
+				continue
+			}
+			// match edge must not reach newResp; newResp only after the loop ran to its end
+			if core.ReachAt(lit, b.Succs[0].Instrs[0], nil, nil)[calls[0].(ssa.Instruction)] {
+				why = "a hello matching an existing session still reaches newResp"
+				continue
+			}
+			// loop exit edge: the rangeindex.loop block of this loop
+			var exitCut core.CutFunc
+			for _, lb := range lit.Blocks {
+				li, ok := lb.Instrs[len(lb.Instrs)-1].(*ssa.If)
+				if !ok {
+					continue
+				}
+				lbo, ok := li.Cond.(*ssa.BinOp)
+				if !ok || lbo.Op != token.LSS || !isRangeIndex(lbo.X) {
+					continue
+				}
+				if core.ReachAt(lit, lb.Succs[0].Instrs[0], nil, func(in ssa.Instruction) bool { return in == ssa.Instruction(li) })[iff] {
+					lb2 := lb
+					exitCut = func(bb *ssa.BasicBlock, i int) bool { return bb == lb2 && i == 1 }
+				}
+			}
+			if exitCut != nil && core.GuardedFromEntry(lit, calls[0].(ssa.Instruction), exitCut) {
+				okRep = true
+			} else {
+				why = "newResp is reachable without the repeated-hello loop having run to its end"
+			}
+		}
+		r.Check(okRep, "C07-ARM", core.FnName(lit)+" repeated hello", p.Pos(lit.Pos()), "a new responder session is created only after the hello's id was compared with every session slot", why+": a late duplicate InitHello of an established session creates a session that can never complete and occupies the prospective slot, so rekey and re-initiation stall until it expires")
+	}
 	// (e) unknown InitHello reaches newResp, and a created responder is proposed
 	{
 		calls := core.CallsToFn(lit, c.newResp)
